@@ -512,6 +512,12 @@ def input_cases(tier):
             for se2 in (False, True):
                 for wire in (True, False):
                     out.append({'probe': 'input', 'rings': n, 'ducts': ducts, 'se2': se2, 'wire': wire})
+    # the same bundle written in cm, the model built the way the command line does (summary tables written):
+    # reporting in the user's unit must leave the geometry alone
+    for n in (3,):
+        for ducts in (1, 2, 3):
+            for se2 in (False, True):
+                out.append({'probe': 'input', 'rings': n, 'ducts': ducts, 'se2': se2, 'wire': True, 'unit': 'cm', 'out': True})
     # the flat-to-flat values of the walls may be listed in any order in the input file
     for n in ((3,) if tier == 'quick' else (2, 3, 5)):
         for ducts in (2, 3):
@@ -574,9 +580,12 @@ def run_input(c):
     dsn = dict(dsn, duct_ftf=listed)
     scn = S.single(dsn, 1.0 * n, length=0.1, power={'rings': n, 'nduct': nd, 'cells': [0.0, 0.1], 'q': 100.0,
                                                      'pins': 'uniform'}, setup={'se2geo': c['se2']})
+    if c.get('unit'):
+        from . import c17
+        scn = c17.convert_scenario(scn, c['unit'], 'kelvin', 'kg/s')
     try:
         with S.Built(scn) as b:
-            got = _geometry(b.reactor().assemblies[0].rodded)
+            got = _geometry((b.reactor(write_output=True) if c.get('out') else b.reactor()).assemblies[0].rodded)
         cool = dassh.Material('sodium_se2anl_425')
         duct = dassh.Material('ht9_se2anl_425')
         rr = dassh.RoddedRegion('c08', n, dsn['pin_pitch'], dsn['pin_diameter'], dsn['wire_pitch'],
@@ -588,11 +597,25 @@ def run_input(c):
         r['outcome'] = 'failed'
         return r
     r['states'], r['transitions'], r['traces'], r['nontrivial'] = 2, 2, 1, True
-    if nd > 1 and not V:
+    if nd > 1 and not V and not c.get('unit'):
         _duct_table_xy(c, dsn, scn, V)
+
+    def differs(k):
+        if not c.get('unit'):
+            return got[k] != ref[k]
+        # lengths stated in another unit come back through one multiplication: equal to round-off
+        if got[k] == ref[k]:
+            return False
+        if k.startswith(('subchannel.type', 'subchannel.sc_adj', 'subchannel.pin_adj', 'subchannel.rev_pin_adj',
+                         'subchannel.n_sc', 'n_')):
+            return True           # integer maps: exactly
+        a, b2 = np.frombuffer(got[k]), np.frombuffer(ref[k])
+        return a.shape != b2.shape or not np.allclose(a, b2, rtol=1e-10, atol=1e-14)
+    pref = ('params', 'bundle_params', 'bypass_params', 'duct_params', 'd.', 'L', 'subchannel', 'pin_lattice', 'n_')
+    if c.get('out'):
+        pref += ('duct_ftf',)     # still the stated widths after the summary tables were written
     for k in sorted(ref):
-        if k.startswith(('params', 'bundle_params', 'bypass_params', 'duct_params', 'd.', 'L', 'subchannel',
-                         'pin_lattice', 'n_')) and k in got and got[k] != ref[k]:
+        if k.startswith(pref) and k in got and differs(k):
             V.append(violation('input-bundle-differs', dict(c, field=k),
                                'geometry %s of the bundle built from the input file ([Setup] se2geo = %s) differs from '
                                'the bundle of the same dimensions and flag constructed directly' % (k, c['se2']),
